@@ -38,7 +38,7 @@ CHECKS = {
  "C09": dict(
   engine="SEQ",
   technique="explicit-state model checking: exhaustive BFS over multi-location histories (facts, writer rules, every small parent set incl. loops, events) through core.LocationProvider and sys.System, reference-model oracle plus privileged-snapshot non-interference",
-  text="BFS to depth 3 (quick) / 4 (thorough), from the empty state and from a populated state, over AddFact / RemFact / AddRule / RemRule / SetParents(every parent set of size <= 2: self-loops, 2- and 3-cycles, chains, fans, diamonds) / ProcessEvent on three locations, driven through core.SimpleLocationProvider and through sys.System, on both states. The rule has an inherited pattern condition and an action that calls Env.AddFact. After every step each location's inherited and local searches, rule candidates, query and parents are compared with a model (tree-shaped ancestry: own + transitive parents; looping ancestry: an error, and the call returns), and the private state + storage of every location other than the one operated on must be unchanged.",
+  text="BFS to depth 3 (quick) / 4 (thorough), from the empty state and from a populated state, over AddFact / RemFact / AddRule / RemRule / ClearLocation / SetParents(every parent set of size <= 2: self-loops, 2- and 3-cycles, chains, fans, diamonds) / ProcessEvent on three locations, driven through core.SimpleLocationProvider and through sys.System, on both states. The rule has an inherited pattern condition and an action that calls Env.AddFact. After every step each location's inherited and local searches, rule candidates, query and parents are compared with a model (tree-shaped ancestry: own + transitive parents; looping ancestry: an error, and the call returns), and the private state + storage of every location other than the one operated on must be unchanged.",
   note="Diamond ancestry is outside the statement's forests (skipped, counted). Actions run with serialActions (concurrent actions are C04/C12). A worker that dies is attributed to its journaled history.",
   design="2/C09"),
  "C11": dict(
@@ -50,19 +50,19 @@ CHECKS = {
  "C12": dict(
   engine="SCHED",
   technique="stateless model checking of the implementation: controlled cooperative scheduler + deviation-bounded DFS over thread schedules, brute-force linearizability against sequential runs, vector-clock happens-before race detection on instrumented maps",
-  text="Two client threads issue one operation each on shared ids of one location for ALL ordered pairs of 9 operations (AddFact x2 values, RemFact, GetFact, SearchFacts, AddRule, RemRule, EnableRule, ProcessEvent), from an empty and a populated location, on both states; every schedule with at most 3 deviations (quick) / 4 (thorough; plus 3 threads and 2+1 operations over a 5-operation alphabet) is executed on the real code under a scheduler that owns every lock, goroutine spawn, channel operation and timer. Per schedule: the call/return history must be explained by a real-time-respecting sequential order (run on a fresh location), final private state and storage must equal that order's, no deadlock (Go's RWMutex writer preference is modelled), no escaped panic, no happens-before race on any instrumented map (thorough: also on the pointer-reached fields of core.IndexedState, core.LinearState and core.Location).",
+  text="Two client threads issue one operation each on shared ids of one location for ALL ordered pairs of 9 operations (AddFact x2 values, RemFact, GetFact, SearchFacts, AddRule, RemRule, EnableRule, ProcessEvent), from an empty and a populated location (a fact and a rule, each with a deleteWith dependent), on both states; every schedule with at most 3 deviations (quick) / 4 (thorough; plus 3 threads and 2+1 operations over a 5-operation alphabet) is executed on the real code under a scheduler that owns every lock, goroutine spawn, channel operation and timer. Per schedule: the call/return history must be explained by a real-time-respecting sequential order (run on a fresh location), final private state and storage must equal that order's, no deadlock (Go's RWMutex writer preference is modelled), no escaped panic, no happens-before race on any instrumented map (thorough: also on the pointer-reached fields of core.IndexedState, core.LinearState and core.Location).",
   note="Sequential consistency is assumed for racy code (races themselves are reported). Visible: rulio's sync, go statements, channels, timers, map accesses; not visible: slice elements, pointer fields, otto internals. 2-3 clients of the property's 2..8. A JavaScript timeout landing early is excluded here (C14).",
   design="2/C12"),
  "C14": dict(
   engine="GEN+SCHED",
   technique="stateless model checking under a controlled scheduler with virtual time as a participant: deviation-bounded DFS over schedules and timer landings of script family x timeout setting x context; native real-time deadline only for busy loops",
-  text="9 script families (value, binding, throwing, undefined variable, syntax error, non-terminating with Env.sleep, slow-but-finishing at 4/6/12 ms) x 12 timeout settings (Control.JavascriptTimeout {0,5ms,negative} x DefaultJavascriptTimeout {10ms,negative} x JavascriptTimeouts on/off) x 3 contexts (Location.RunJavascript, rule condition, rule action through ProcessEvent) run under the scheduler with virtual time; every schedule with at most 2 deviations (3 thorough), where the watchdog timer landing early at any scheduling point is a deviation. The caller must return on every schedule; an overrunning script must yield an error / non-complete node within limit + one wait quantum; throwing and invalid scripts yield errors; within-limit scripts return their value. Busy loops without a scheduling point (while(true){}, while(true){x=1}, for(;;){}, for(;;){x=1}, do{}while(true)) run natively in child processes with a 50 ms limit against a 20 s deadline (3 isolated runs each).",
+  text="9 script families (value, binding, throwing, undefined variable, syntax error, non-terminating with Env.sleep, slow-but-finishing at 4/6/12 ms) x 12 timeout settings (Control.JavascriptTimeout {0,5ms,negative} x DefaultJavascriptTimeout {10ms,negative} x JavascriptTimeouts on/off) x 4 contexts (Location.RunJavascript, rule condition, one disjunct of a rule condition next to one that holds, rule action through ProcessEvent) run under the scheduler with virtual time; every schedule with at most 2 deviations (3 thorough), where the watchdog timer landing early at any scheduling point is a deviation. The caller must return on every schedule; an overrunning script must yield an error / non-complete node within limit + one wait quantum; throwing and invalid scripts yield errors; within-limit scripts return their value. Busy loops without a scheduling point (while(true){}, while(true){x=1}, for(;;){}, for(;;){x=1}, do{}while(true)) run natively in child processes with a 50 ms limit against a 20 s deadline (3 isolated runs each).",
   note="Code between scheduling points takes no virtual time; an early timer landing models slow real execution, so a finishing script may then end either way (but never hang, never success with a nil value).",
   design="2/C14"),
  "C13": dict(
   engine="GEN",
   technique="bounded-exhaustive enumeration of the input language (skeleton x value documents in every role, at every layer, on both states) on the real code in journaled child processes, with recover / watchdog / process-death attribution and canary traffic after every input",
-  text="Every document (hole at one reserved position - rule, when, pattern, condition, action(s), code, schedule, expires, ttl, deleteWith, id, !props, and/or/not, trigger!, evaluate!, location(s), inherited, uri, variable-looking keys - filled with every value of a pool: 7 leaves, all containers of them to nesting 2 (3 thorough) including empty and heterogeneous ones, variable-looking keys, maps and arrays nested 100 and 3000 deep) is used as fact, rule, pattern, query, event and whole HTTP request body through core.Location, sys.System (with cron hooks) and service.HTTPService.ServeHTTP, on indexed and linear state, each on a fresh pre-populated location and followed by seven canary operations (add, find, get, fire a rule, query, remove, list). Each case is journaled before it runs in a child process: a recovered panic, a call that does not return (re-run alone with a 60 s watchdog), a dead process (re-run alone) and a failing or wrong canary are violations; the supervisor carries on behind a crash.",
+  text="Every document (hole at one reserved position, or a hole next to a `when` that the canary event matches - rule, when, pattern, condition, action(s), code, schedule, expires, ttl, deleteWith, id, !props, and/or/not, trigger!, evaluate!, location(s), inherited, uri, variable-looking keys - filled with every value of a pool: 7 leaves, all containers of them to nesting 2 (3 thorough) including empty and heterogeneous ones, variable-looking keys, maps and arrays nested 100 and 3000 deep) is used as fact, rule, pattern, query, event and whole HTTP request body through core.Location, sys.System (with cron hooks) and service.HTTPService.ServeHTTP, on indexed and linear state, each on a fresh pre-populated location and followed by seven canary operations (add, find, get, fire a rule, query, remove, list). Each case is journaled before it runs in a child process: a recovered panic, a call that does not return (re-run alone with a 60 s watchdog), a dead process (re-run alone) and a failing or wrong canary are violations; the supervisor carries on behind a crash.",
   note="Quick: about 96,000 cases (600,000 guarded calls). The virtual clock is frozen, so JavaScript watchdogs never fire; scripts in the language do not loop (C14 owns runaway scripts). After three hangs of one skeleton the rest of that skeleton is skipped and the run reported as not exhaustive.",
   design="2/C13"),
  "C15": dict(
@@ -80,7 +80,7 @@ CHECKS = {
  "C17": dict(
   engine="SEQ+SCHED",
   technique="explicit-state differential model checking over cache configurations (BFS over request histories run on seven worlds at once) plus stateless schedule exploration of concurrent requests through sys.System",
-  text="Sequential: BFS to depth 4 (6 thorough) over {CreateLocation, AddFact, RemFact, GetFact, SearchFacts, AddRule, ProcessEvent, ClearLocation} on two locations and clock += 2ms; every history runs simultaneously on a cache-less core.Location and on six sys.System worlds (LocationTTL never/1ms/forever x CheckExistence off/on, recording storage, virtual clock), both states: all answers must agree, refused requests to uncreated locations must leave no storage pair and no cache entry. Concurrent: under the controlled scheduler, concurrent FIRST requests for one location (TTL forever/1ms) must call Storage.Load exactly once, and 2-3 clients x 1-2 requests on one location (TTL never/1ms) must be linearizable against sequential runs through an identically configured System, stored pairs included (deviation bound 1 quick / 2 thorough).",
+  text="Sequential: BFS to depth 4 (6 thorough) over {CreateLocation, AddFact, RemFact, GetFact, SearchFacts, AddRule, ProcessEvent, ClearLocation, AddFact of a non-numeric !cacheTTL property} on two locations and clock += 2ms; every history runs simultaneously on a cache-less core.Location and on six sys.System worlds (LocationTTL never/1ms/forever x CheckExistence off/on, recording storage, virtual clock), both states: all answers must agree, refused requests to uncreated locations must leave no storage pair and no cache entry. Concurrent: under the controlled scheduler, concurrent FIRST requests for one location (TTL forever/1ms) must call Storage.Load exactly once, and 2-3 clients x 1-2 requests on one location (TTL never/1ms) must be linearizable against sequential runs through an identically configured System, stored pairs included (deviation bound 1 quick / 2 thorough).",
   note="Two engines decide this property; bin/run.sh runs both and folds the evidence. Errors are compared by class; removing an id that is not stored is unspecified.",
   design="2/C17"),
  "C18": dict(
@@ -92,7 +92,7 @@ CHECKS = {
  "C19": dict(
   engine="GEN+SEQ",
   technique="exhaustive enumeration of the product protection state x caller context x operation x set-up history on the real Location (directly and via sys.System), privileged before/after snapshot and unprotected-twin oracle",
-  text="The full product of 16 protection states (write key x read key x read-only x disabled), 13 caller contexts (no/wrong/right write and read key, also as SubContexts), 27 operations (whole Location API, Env.* location functions reached from RunJavascript, events whose rule actions mutate), 4 set-up histories, both states and both drivers is executed: a mutating call without write authority must fail and leave private state + storage identical, a revealing call without read authority must fail and return no data, a fully authorised call must equal the same call on an unprotected twin. Inherited path: a parent in each of the 16 protection states is reached through an unprotected child by 7 revealing operations (inherited SearchFacts / ListRules / SearchRules, Query, ProcessEvent, Env.Search, Env.Query) from the 13 caller contexts: without read authority over the parent none of the parent's facts or rules may come back, with it the answer equals the unprotected one.",
+  text="The full product of 16 protection states (write key x read key x read-only x disabled), 13 caller contexts (no/wrong/right write and read key, also as SubContexts), 29 operations (whole Location API, two trigger! events, Env.* location functions reached from RunJavascript, events whose rule actions mutate), 4 set-up histories, both states and both drivers is executed: a mutating call without write authority must fail and leave private state + storage identical, a revealing call without read authority must fail and return no data, a fully authorised call must equal the same call on an unprotected twin. Inherited path: a parent in each of the 16 protection states is reached through an unprotected child by 7 revealing operations (inherited SearchFacts / ListRules / SearchRules, Query, ProcessEvent, Env.Search, Env.Query) from the 13 caller contexts: without read authority over the parent none of the parent's facts or rules may come back, with it the answer equals the unprotected one.",
   note="The mutating/revealing classification is argued at the top of c19.go (RuleEnabled, GetParents unclassified). ListRules' documented swallowing of the search error (empty list) is accepted as a refusal.",
   design="2/C19"),
  "C20": dict(
@@ -104,19 +104,19 @@ CHECKS = {
  "C10": dict(
   engine="SEQ",
   technique="explicit-state model checking: exhaustive BFS over rule-lifecycle histories (add/overwrite/remove/disable/enable/reload/location toggle/expiry) under a virtual clock, lifecycle-automaton oracle",
-  text="BFS over AddRule(v1|v2|expiring) / RemRule / EnableRule / Reload / location disable+enable / clock past the expiry / ProcessEvent / trigger! sequences on {indexed, linear} x {rules local, rules inherited from a parent and toggled in the child}: one rule id to depth 6 (9 thorough), two ids to depth 4 (5). In every reached canonical state the plain event, a trigger! event per id, RuleEnabled and ListRules are compared with the lifecycle automaton (fires with the version last added iff present, unexpired, not disabled here, location enabled); in every disabled state 20 public Location operations must return the disabled error and leave the privileged snapshot (private state dump + storage) unchanged.",
+  text="BFS over AddRule(v1 | v2, which names the event variable differently | expiring) / RemRule / EnableRule / Reload / location disable+enable / clock past the expiry / ProcessEvent / trigger! sequences on {indexed, linear} x {rules local, rules inherited from a parent and toggled in the child}: one rule id to depth 6 (9 thorough), two ids to depth 4 (5). In every reached canonical state the plain event, a trigger! event per id, RuleEnabled and ListRules are compared with the lifecycle automaton (fires with the version last added iff present, unexpired, not disabled here, location enabled); in every disabled state 20 public Location operations must return the disabled error and leave the privileged snapshot (private state dump + storage) unchanged.",
   note="EnableRule only on ids that hold a rule; flag semantics for a parent rule removed while flagged in the child are left unspecified until the next EnableRule; trigger! is only required not to fire suppressed/dead rules when the rule is inherited.",
   design="2/C10"),
  "C04": dict(
   engine="GEN+SCHED",
   technique="bounded-exhaustive enumeration of rule/binding/action shapes, each executed under the controlled scheduler with deviation-bounded DFS over schedules; recording-function oracle + happens-before race detection",
-  text="All shapes {1..2 rules} x {1,2 when-bindings via an array pattern} x {no condition, a pattern condition yielding 0/1/2 bindings} x {1 action, 2 actions, 2 actions with a throwing one} x serialActions {off, on, only on rule 1, only on rule 2} x state: the event is processed under the scheduler (action goroutines, WaitGroup, Values mutex, shared Bindings maps all visible) for every schedule with at most 1 deviation (2 thorough). A Go function installed through App.UpdateJavascriptRuntime records every execution with the variables it can see; the multiset of executions, the work tree nodes, Values and dispositions must equal the expected product, a failing action of a non-serial rule must not stop or alter anything else, and no deadlock, escaped panic or happens-before race may occur.",
+  text="All shapes {1..2 rules} x {1,2 when-bindings via an array pattern} x {no condition, a pattern condition yielding 0/1/2 bindings, a disjunction of two code terms of which one adds a variable} x {1 action, 2 actions, 2 actions with a throwing one} x serialActions {off, on, only on rule 1, only on rule 2} x state: the event is processed under the scheduler (action goroutines, WaitGroup, Values mutex, shared Bindings maps all visible) for every schedule with at most 1 deviation (2 thorough). A Go function installed through App.UpdateJavascriptRuntime records every execution with the variables it can see; the multiset of executions, the work tree nodes, Values and dispositions must equal the expected product, a failing action of a non-serial rule must not stop or alter anything else, and no deadlock, escaped panic or happens-before race may occur.",
   note="Actions come from one template family reporting candidate variables x,y,e,event,location,ruleId,z. With serialActions a failing action may stop the walk (only 'never twice' is then required).",
   design="2/C04"),
  "C05": dict(
   engine="GEN",
   technique="bounded-exhaustive enumeration of (pattern, datum, bindings) triples x owned map-iteration orders on the real matcher against an independent reference matcher",
-  text="Every (pattern, datum, initial bindings) triple of a bounded JSON grammar inside the documented fragment (node budgets 4/4 quick, 5/5 thorough) is run through core.Match under every iteration order of the maps the sheens matcher ranges over (order owned through the build overlay), and the result is compared as a set of binding sets with a brute-force reference matcher written from the manual; inputs are checked for mutation; every core.Map/[]string/[]int decoration of each pair, and the same numbers as Go ints / int64s on one side only, must answer like the plain JSON form; Bindings.Bind is compared with reference substitution.",
+  text="Every (pattern, datum, initial bindings) triple of a bounded JSON grammar inside the documented fragment (node budgets 4/4 quick, 5/5 thorough) is run through core.Match under every iteration order of the maps the sheens matcher ranges over (order owned through the build overlay), and the result is compared as a set of binding sets with a brute-force reference matcher written from the manual; inputs are checked for mutation; every core.Map/[]string/[]int decoration of each pair, and the same numbers as Go ints / int64s on one side only, must answer like the plain JSON form; Go-typed initial bindings (int, core.Map, []string) must come back untouched (reflect.DeepEqual); Bindings.Bind is compared with reference substitution.",
   note="Trusts the reference matcher (harness/lib/refmatch.go, ~200 lines, written from the manual's definition). Data strings never look like variables (C13 covers that). Bounded term size: a defect needing a 6-node pattern is missed.",
   design="2/C05"),
  "C02": dict(
